@@ -212,7 +212,7 @@ def opOf (s : String) : Spec.Op :=
 def outOf (s : String) : Spec.Out :=
   match s with
   | "acquired" => .acquired
-  | "not-obtained" => .refused | "locked" => .refused | "timeout" => .refused | "session-expired" => .refused
+  | "not-obtained" => .refused | "locked" => .refused | "timeout" => .refused
   | "blocked" => .blocked | "ctx-live" => .ctxLive | "ctx-session-done" => .ctxDone | "ctx-cancelled" => .ctxPlain
   | _ => .other
 
@@ -230,8 +230,7 @@ def handleMultiKey (j : Json) : Json :=
   let impl := jget j "impl"
   let res := (strs (jget impl "res")).headD "?"
   let flag := (strs (jget impl "flags")).headD ""
-  let viol := (if res == "ctx-live" && Ctx.callbackCtx false lost then ["C19:lost-lock-not-signalled:multi-key"] else []) ++
-    (if flag == "slow" then ["C19:signalled-late"] else [])
+  let viol := Spec.multiKeyViol lost (res == "ctx-live") (flag == "slow")
   verdict id (res == model && !jhas impl "err" && !jhas impl "panic" && !jhas impl "timeout") (Json.str model) viol
     ("etcd-loss-multikey-" ++ jstr (jget j "helper")) false
 
@@ -257,7 +256,7 @@ def handleSched (j : Json) : Json :=
   let wellFormed := if redis then cmds.all (fun c => (redisCmd c).isSome) else cmds.all (fun c => (etcdCmd c).isSome)
   let agree := wellFormed && model == ires && !jhas impl "panic"
   let scmds : List Spec.SCmd := cmds.map fun c => ⟨opOf c.op, c.c, c.dt⟩
-  let fin := Spec.specRun redis ttl wait {} scmds (ires.map outOf) (islow.map flagOf)
+  let fin := Spec.specRun redis ttl wait 500 {} scmds (ires.map outOf) (islow.map flagOf)
   let hasAsync := cmds.any (·.op == "lockasync")
   let hasLoss := cmds.any (fun c => c.op == "revoke" || c.op == "observe" || c.op == "expire")
   let contended := ires.any (fun r => r == "not-obtained" || r == "locked" || r == "timeout" || r == "blocked")
@@ -271,7 +270,7 @@ def handleSched (j : Json) : Json :=
   -- design took > 300 ms, client-side deadlines hit): mutual exclusion and missing loss signals are still judged on the results,
   -- outcome equality and the timing clauses are not
   if jbool (jget impl "timing_off") then
-    let v := ((Spec.specRun redis ttl wait {} scmds (ires.map outOf) (islow.map flagOf)).viol.eraseDups).filter fun x =>
+    let v := ((Spec.specRun redis ttl wait 500 {} scmds (ires.map outOf) (islow.map flagOf)).viol.eraseDups).filter fun x =>
       x == "C18:two-holders-within-lease" || x == "C19:redis-ttl-expiry-not-signalled" || x == "C19:etcd-loss-not-signalled"
     verdict id true (jstrs model) v "timing-off" true else
   verdict id agree (jstrs model) fin.viol.eraseDups cls (!contended && !fin.overlap && !hasLoss)
